@@ -60,11 +60,8 @@ def run(pid, tier):
             if len(rep.coverage["samples"]) >= 4:
                 break
     for v in res["viol"]:
-        if v["clause"] not in mine and not (pid == "C07" and v["site"] == "damaged") and not (pid == "C06" and v["site"] != "damaged" and v["clause"] in C07_CLAUSES):
-            continue
-        if pid == "C06" and v["site"] == "damaged":
-            continue
-        if pid == "C07" and v["site"] != "damaged":
+        damaged_site = v["site"].startswith("damaged")     # observations of damaged images belong to C07, all others to C06
+        if (pid == "C07") != damaged_site:
             continue
         ctx = recs[max(0, v["line"] - 4):v["line"]]
         rep.violation(v["clause"], v["site"], v["cond"], {"line": v["line"], "event": recs[v["line"] - 1], "context": ctx})
